@@ -6,15 +6,16 @@
 package relay
 
 import (
-	"github.com/ethereum/go-ethereum/crypto"
-	upgradetypes "github.com/cosmos/cosmos-sdk/x/upgrade/types"
-	xibctypes "github.com/teleport-network/teleport/x/xibc/types"
-	"github.com/teleport-network/teleport/x/xibc"
 	"bytes"
 	"crypto/sha256"
 	"encoding/hex"
 	"encoding/json"
 	"fmt"
+	upgradetypes "github.com/cosmos/cosmos-sdk/x/upgrade/types"
+	"github.com/ethereum/go-ethereum/crypto"
+	"github.com/teleport-network/teleport/x/xibc"
+	xibctypes "github.com/teleport-network/teleport/x/xibc/types"
+	tmtypes "github.com/tendermint/tendermint/types"
 	"math/big"
 	"os"
 	"sort"
@@ -33,6 +34,7 @@ import (
 	endpointcontract "github.com/teleport-network/teleport/syscontracts/xibc_endpoint"
 	packetcontract "github.com/teleport-network/teleport/syscontracts/xibc_packet"
 	aggregatetypes "github.com/teleport-network/teleport/x/aggregate/types"
+	xibctmtypes "github.com/teleport-network/teleport/x/xibc/clients/light-clients/tendermint/types"
 	tsstypes "github.com/teleport-network/teleport/x/xibc/clients/tss-client/types"
 	clienttypes "github.com/teleport-network/teleport/x/xibc/core/client/types"
 	"github.com/teleport-network/teleport/x/xibc/core/host"
@@ -54,18 +56,19 @@ var long = map[string]string{"A": A, "B": B, "C": C}
 
 // Config is the alphabet and the bounds of one search.
 type Config struct {
-	Chains    int      // 2 or 3
-	MaxSends  int      // number of sends in a history
-	Sends     []string // send menu entries: "<src> <dst> <kind> <amount>"
-	RecvForms []string
-	AckForms  []string
-	Depth     int
-	Attacks   bool // C02: mutation operations on currently valid relay messages
-	AttackSet string
-	TraceScale uint8   // scale of the traces of bound ERC-20 tokens: each is registered with scale 0 first and re-registered (a governance correction) with this scale before any transfer
-	Scale     *big.Int // raw amount of one unit of an ERC-20 (and of tokens bound to it); nil = 1. 2^64+1 makes every amount exceed 64 bits with non-zero low bits
-	TSS       bool // B's client of A is a TSS client
-	Prop      string
+	Chains     int      // 2 or 3
+	MaxSends   int      // number of sends in a history
+	Sends      []string // send menu entries: "<src> <dst> <kind> <amount>"
+	RecvForms  []string
+	AckForms   []string
+	Depth      int
+	Attacks    bool // C02: mutation operations on currently valid relay messages
+	AttackSet  string
+	TimeDelay  uint64   // delay period (ns) of every tendermint client: a proof at a height is honoured only that long after the height's header was processed
+	TraceScale uint8    // scale of the traces of bound ERC-20 tokens: each is registered with scale 0 first and re-registered (a governance correction) with this scale before any transfer
+	Scale      *big.Int // raw amount of one unit of an ERC-20 (and of tokens bound to it); nil = 1. 2^64+1 makes every amount exceed 64 bits with non-zero low bits
+	TSS        bool     // B's client of A is a TSS client
+	Prop       string
 }
 
 var stores = []string{host.StoreKey, evmtypes.StoreKey, banktypes.StoreKey, aggregatetypes.StoreKey}
@@ -132,7 +135,7 @@ func New(cfg Config) *Sys {
 					must(c.App.XIBCKeeper.ClientKeeper.CreateClient(ctx, m, tcs, &tsstypes.ConsensusState{}))
 					world.RegisterRelayers(c, ctx, m, "u2")
 				} else {
-					world.CreateTMClient(c, ctx, s.w.Chains[m])
+					world.CreateTMClientDelay(c, ctx, s.w.Chains[m], cfg.TimeDelay)
 				}
 				world.RegisterRelayers(c, ctx, m, "r1", "r2")
 			}
@@ -322,6 +325,13 @@ func (s *Sys) Ops() []string {
 	}
 	if s.cfg.Attacks {
 		out = append(out, s.attackOps()...)
+		for _, on := range names {
+			for _, of := range names {
+				if on != of && on != C && of != C && !s.tss(on, of) && len(s.tr) > 0 {
+					out = append(out, fmt.Sprintf("fupd %s %s", short[on], short[of]), fmt.Sprintf("fupd %s %s lower", short[on], short[of]))
+				}
+			}
+		}
 	}
 	return out
 }
@@ -451,7 +461,7 @@ func (s *Sys) sendTx(src, dst *world.Chain, kind string, amount int64) (tx []byt
 func ctorForward(target common.Address, data []byte) []byte {
 	const L = 56 // length of the prologue = offset of the embedded call data
 	n := len(data)
-	code := []byte{0x61, byte(n >> 8), byte(n), 0x61, 0, L, 0x60, 0, 0x39} // PUSH2 len PUSH2 off PUSH1 0 CODECOPY
+	code := []byte{0x61, byte(n >> 8), byte(n), 0x61, 0, L, 0x60, 0, 0x39}                // PUSH2 len PUSH2 off PUSH1 0 CODECOPY
 	code = append(code, 0x60, 0, 0x60, 0, 0x61, byte(n>>8), byte(n), 0x60, 0, 0x34, 0x73) // retLen retOff argsLen argsOff CALLVALUE PUSH20
 	code = append(code, target.Bytes()...)
 	code = append(code, 0x5a, 0xf1, 0x60, 50, 0x57, 0x60, 0, 0x60, 0, 0xfd, 0x5b, 0x60, 0, 0x60, 0, 0xf3) // GAS CALL PUSH1 50 JUMPI revert | JUMPDEST return
@@ -526,6 +536,36 @@ func (s *Sys) Apply(op string) (obs, class string, viols []bfs.Viol) {
 		tx := on.CosmosTx(on.Accounts["r1"], msg)
 		obs, class = s.stepOther(on, "upd", [][]byte{tx}, add)
 		return
+	case "fupd":
+		// a registered relayer re-submits the header of the height the client already tracks, with another application hash
+		// (same block time and validator hashes; the signatures no longer match): whatever happens to the message, every
+		// state root the client holds afterwards is one the counterparty really had
+		on, of := s.w.Chains[long[f[1]]], s.w.Chains[long[f[2]]]
+		latest := on.ClientLatest(of.Name)
+		hdr := of.UpdateHeader(int64(latest.RevisionHeight), latest)
+		sh := *hdr.SignedHeader
+		hh := *sh.Header
+		forged := sha256.Sum256(append([]byte("a store of the relayer's own/"), hh.AppHash...))
+		hh.AppHash = forged[:]
+		sh.Header = &hh
+		if th, err := tmtypes.HeaderFromProto(&hh); err == nil && sh.Commit != nil {
+			// the commit names the forged header (so that the message is well formed); its signatures are those of the real one
+			cm := *sh.Commit
+			cm.BlockID.Hash = th.Hash()
+			sh.Commit = &cm
+		}
+		hdr.SignedHeader = &sh
+		if len(f) > 3 && f[3] == "lower" {
+			// trusting the height below (when the client holds it)
+			if o := s.oldestProving(on, of, 0); o != 0 && uint64(o) < latest.RevisionHeight {
+				hdr.TrustedHeight = clienttypes.NewHeight(latest.RevisionNumber, uint64(o))
+			}
+		}
+		msg, err := clienttypes.NewMsgUpdateClient(of.Name, hdr, on.Accounts["r2"].Acc)
+		must(err)
+		obs, class = s.stepOther(on, "forged update", [][]byte{on.CosmosTx(on.Accounts["r2"], msg)}, add)
+		s.checkRoots(on, of, add, op)
+		return
 	case "upgrade":
 		// the registered software upgrade (v0.2) executes on a chain: system contracts are re-installed and the xibc state is
 		// reset; whatever it keeps or drops, the chain-side send counters and the packet contract's must still agree and
@@ -549,6 +589,45 @@ func (s *Sys) Apply(op string) (obs, class string, viols []bfs.Viol) {
 		}
 		s.dead = "upgraded"
 		return "upgraded", "software upgrade executed", viols
+	case "restart":
+		// the network is restarted from an exported genesis (`teleport export`, then InitChain of a fresh application):
+		// the xibc records, the state of the system contracts and every balance are what they were, and the chain-side
+		// send counters agree with the packet contract's. The search ends here (the old headers are gone).
+		c := s.w.Chains[long[f[1]]]
+		before := dumpAll(c)
+		n, err := c.RestartFromExport(s.w.Tick())
+		if err != nil {
+			add("C13", "restart-from-exported-genesis-fails", fmt.Sprintf("on %s: %v", short[c.Name], err))
+			add("C04", "restart-from-exported-genesis-fails", fmt.Sprintf("on %s: %v", short[c.Name], err))
+			s.dead = "restart failed"
+			return "restart failed", "restart from exported genesis fails", viols
+		}
+		for _, d := range append(append([]string{}, s.w.Order...), "nochain-77") {
+			if d == c.Name {
+				continue
+			}
+			model := uint64(1)
+			for _, t := range s.tr {
+				if t.Src == c.Name && t.Dst == d {
+					model++
+				}
+			}
+			nk := n.App.XIBCKeeper.PacketKeeper.GetNextSequenceSend(n.ReadCtx(), c.Name, d)
+			nc := n.ContractNextSeq(d)
+			if nk != nc || nk != model {
+				add("C04", "sequence-counters-disagree-after-restart", fmt.Sprintf("after a restart of %s from its exported genesis, towards %s: chain-side counter %d, packet contract %d, ledger %d", short[c.Name], shortOr(d), nk, nc, model))
+			}
+		}
+		after := dumpAll(n)
+		for _, st := range []string{host.StoreKey, evmtypes.StoreKey, banktypes.StoreKey} {
+			if d := world.DiffStores(before[st], after[st]); len(d) > 0 {
+				for _, prop := range []string{"C13", "C04", "C03"} {
+					add(prop, "state-differs-after-restart-from-exported-genesis/"+st, fmt.Sprintf("restart of %s: store %s differs: %v", short[c.Name], st, d))
+				}
+			}
+		}
+		s.dead = "restarted"
+		return "restarted", "restart from exported genesis", viols
 	case "recv":
 		obs, class = s.stepRecv(f[1], f[2], add)
 		return
@@ -853,6 +932,49 @@ func (s *Sys) recvMsg(t *transfer, form string) (msgs []sdk.Msg, signer world.Ac
 	return msgs, signer, dst, form == "dupblk"
 }
 
+// beforeDelay: "" if the delay period of on's tendermint client of `of` has passed for the stated proof height at the
+// current block time, a description otherwise. The processed time is the one the update wrote.
+func (s *Sys) beforeDelay(on, of *world.Chain, ph clienttypes.Height) string {
+	if s.cfg.TimeDelay == 0 {
+		return ""
+	}
+	st := on.App.XIBCKeeper.ClientKeeper.ClientStore(on.ReadCtx(), of.Name)
+	pt, ok := xibctmtypes.GetProcessedTime(st, ph)
+	now := uint64(s.w.Now.UnixNano())
+	if !ok || now < pt+s.cfg.TimeDelay {
+		return fmt.Sprintf("proof height %s was processed at %d ns (found=%v), the block time is %d ns, the client's delay period %d ns", ph, pt, ok, now, s.cfg.TimeDelay)
+	}
+	return ""
+}
+
+// checkRoots: every consensus state of on's tendermint client of `of` carries the application hash `of` really had
+// after the block below that height (the harness owns both chains).
+func (s *Sys) checkRoots(on, of *world.Chain, add addFn, when string) {
+	if s.tss(on.Name, of.Name) {
+		return
+	}
+	on.App.XIBCKeeper.ClientKeeper.IterateConsensusStates(on.ReadCtx(), func(name string, cs clienttypes.ConsensusStateWithHeight) bool {
+		if name != of.Name {
+			return false
+		}
+		st, err := clienttypes.UnpackConsensusState(cs.ConsensusState)
+		h := int64(cs.Height.RevisionHeight)
+		truth := of.AppHashAfter[h-1]
+		if hd := of.Headers[h]; hd != nil && hd.SignedHeader != nil && hd.SignedHeader.Header != nil {
+			truth = hd.SignedHeader.Header.AppHash // the application hash the counterparty's own header of that height carries
+		}
+		if truth == nil {
+			return false
+		}
+		if err != nil || !bytes.Equal(st.GetRoot(), truth) {
+			for _, prop := range []string{"C02", "C01", "C05"} {
+				add(prop, "client-holds-a-state-root-the-counterparty-never-had", fmt.Sprintf("after %s: the client on %s of %s holds root %x at height %s, the counterparty's application hash there was %x", when, short[on.Name], short[of.Name], st.GetRoot(), cs.Height, truth))
+			}
+		}
+		return false
+	})
+}
+
 // oldestProving returns the smallest stored consensus height of on's client of `of` that is > artefactHeight (0 if none).
 func (s *Sys) oldestProving(on, of *world.Chain, artefactHeight int64) int64 {
 	var best int64
@@ -887,6 +1009,11 @@ func (s *Sys) groundTruthRecv(dst *world.Chain, m *packettypes.MsgRecvPacket, ad
 			add("C06", "tss-secured-receive-accepted-from-another-signer", fmt.Sprintf("recv %s on %s signed by %s", what, short[dst.Name], m.Signer))
 		}
 		return
+	}
+	if early := s.beforeDelay(dst, src, m.ProofHeight); early != "" {
+		for _, prop := range []string{"C01", "C02", "C03"} {
+			add(prop, "receive-accepted-before-the-delay-period", fmt.Sprintf("recv %s on %s: %s", what, short[dst.Name], early))
+		}
 	}
 	canon, _ := p.ABIPack()
 	hc := sha256.Sum256(canon)
@@ -1456,9 +1583,43 @@ var UpgradeScript = []string{"send A B erc20 3", "send A B native 1", "send A C 
 // no status, no refund, no fee to anybody — in particular not to a relayer of some other chain).
 var EmptyRelayerScript = []string{"send A B feeonly1 1", "send A B erc20+callrevert 1", "upd B A", "upd A B", "upd B A", "recv A>B#1 g4", "recv A>B#2 g4", "upd A B", "upd B A", "upd A B", "ack A>B#1 g1", "ack A>B#2 g1", "ack A>B#1 g2"}
 
+// ExportRestartScripts: traffic in every stage (sent, received, acknowledged, refunded, in flight on two paths), then
+// the sending chain — in the second script the receiving chain — is restarted from its exported genesis.
+var ExportRestartScriptA = []string{"send A B erc20 3", "send A B native 1", "send A C erc20 1", "send A B erc20+callrevert 1", "send B A native 1", "upd B A", "upd A B", "upd B A",
+	"recv A>B#1 g1", "recv A>B#2 g1", "recv A>B#3 g1", "upd A B", "upd B A", "upd A B", "ack A>B#1 g1", "ack A>B#3 g1", "send A B feeonly1 1", "restart A"}
+var ExportRestartScriptB = []string{"send A B erc20 3", "send A B native 1", "send C B erc20 1", "send B A native 1", "upd B A", "upd A B", "upd B A", "upd B C", "upd C B", "upd B C",
+	"recv A>B#1 g1", "recv C>B#1 g1", "send B A back 1", "restart B"}
+
+// DelayScript runs on clients with a delay period of 12 s (blocks are 5 s apart): every message is offered in the block
+// after the update that makes it provable (must be refused), one block later (refused) and one more block later.
+var DelayScript = []string{"send A B feeonly1 1", "send A B erc20+callrevert 1", "upd B A", "upd A B", "upd B A",
+	"recv A>B#1 g1", "recv A>B#1 g1", "recv A>B#1 g1", "recv A>B#2 g1", "upd A B", "upd B A", "upd A B",
+	"ack A>B#1 g1", "ack A>B#1 g1", "ack A>B#1 g1", "ack A>B#2 g1", "ack A>B#2 g2"}
+
 func ScriptedViolations(prop string) (steps int, out []ScriptViol) {
 	seen := map[string]bool{}
-	for _, script := range [][]string{RestartScript, ManySendsScript, HookScript, ForgedLogScript, UpgradeScript, EmptyRelayerScript} {
+	{
+		s := New(Config{Chains: 3, MaxSends: 14, Prop: prop, TimeDelay: 12_000_000_000})
+		accepted := 0
+		for i, op := range DelayScript {
+			_, class, vs := s.Apply(op)
+			vs = append(vs, s.Check()...)
+			steps++
+			if strings.Contains(class, "accepted") && (strings.HasPrefix(op, "recv") || strings.HasPrefix(op, "ack")) {
+				accepted++
+			}
+			for _, v := range vs {
+				if strings.HasPrefix(v.Sig, prop+":") && !seen[v.Sig] {
+					seen[v.Sig] = true
+					out = append(out, ScriptViol{v, append([]string{"(tendermint clients with a delay period of 12 s)"}, DelayScript[:i+1]...)})
+				}
+			}
+		}
+		if accepted < 4 {
+			panic(fmt.Sprintf("delay script: only %d relayed messages accepted after the delay period (the script is vacuous)", accepted))
+		}
+	}
+	for _, script := range [][]string{RestartScript, ManySendsScript, HookScript, ForgedLogScript, UpgradeScript, EmptyRelayerScript, ExportRestartScriptA, ExportRestartScriptB} {
 		s := New(Config{Chains: 3, MaxSends: 14, Prop: prop})
 		for i, op := range script {
 			_, _, vs := s.Apply(op)
